@@ -238,13 +238,78 @@ Proof.
   - cbn [np_flat] in E. inversion E; subst. cbn [snd]. cbn [wfv] in W. apply andb_true_iff in W. tauto.
 Qed.
 
+(* C cast of the elements of an ndarray of another dtype: lands in the storage range when the dtype has a sane width *)
+Definition dt_wok (dt : dtype) : Prop := match dt with DU w => 0 <= w | DS w => 1 <= w | _ => True end.
+
+Lemma wrap_u_range : forall w z, 0 <= w -> urange w (z mod 2 ^ w) = true.
+Proof.
+  intros w z Hw. unfold urange. assert (0 < 2 ^ w) by (apply Z.pow_pos_nonneg; lia).
+  pose proof (Z.mod_pos_bound z (2 ^ w) H). lia.
+Qed.
+
+Lemma wrap_s_range : forall w z, 1 <= w -> srange w ((z + 2 ^ (w - 1)) mod 2 ^ w - 2 ^ (w - 1)) = true.
+Proof.
+  intros w z Hw. unfold srange. assert (P : 0 < 2 ^ (w - 1)) by (apply Z.pow_pos_nonneg; lia).
+  assert (E : 2 ^ w = 2 * 2 ^ (w - 1)).
+  { replace w with (Z.succ (w - 1)) at 1 by lia. apply Z.pow_succ_r. lia. }
+  rewrite E. pose proof (Z.mod_pos_bound (z + 2 ^ (w - 1)) (2 * 2 ^ (w - 1))).
+  generalize dependent (2 ^ (w - 1)). intros P0 HP _ Hm. lia.
+Qed.
+
+Lemma conv_elem_ok : forall dt x y, dt_wok dt -> conv_elem dt x = Ok y -> fits dt y = true /\ (y = x \/ is_leafval y = true).
+Proof.
+  intros dt x y Hd H.
+  destruct dt, x; cbn [conv_elem] in H; try (apply conv_leaf_ok in H; exact H); cbn [dt_wok] in Hd.
+  - inversion H; subst. cbn [fits wrap_int is_leafval]. split; [apply wrap_u_range; exact Hd|auto].
+  - destruct (f_isfinite bits); [|apply conv_leaf_ok in H; exact H].
+    inversion H; subst. cbn [fits wrap_int is_leafval]. split; [apply wrap_u_range; exact Hd|auto].
+  - inversion H; subst. cbn [fits wrap_int is_leafval]. split; [apply wrap_s_range; exact Hd|auto].
+  - destruct (f_isfinite bits); [|apply conv_leaf_ok in H; exact H].
+    inversion H; subst. cbn [fits wrap_int is_leafval]. split; [apply wrap_s_range; exact Hd|auto].
+Qed.
+
+Lemma conv_elem_all : forall dt s db l l', dt_wok dt -> Forall2 (fun a b => conv_elem dt a = Ok b) l l' ->
+  forallb (wfv PW db s) l = true ->
+  length l' = length l /\ forallb (fits dt) l' = true /\ forallb (wfv PW db s) l' = true.
+Proof.
+  intros dt s db l l' Hd H. induction H as [|a b l l' Hab _ IH]; intros W; cbn [forallb length] in *; auto.
+  apply andb_true_iff in W. destruct W as [Wa Wl]. destruct (IH Wl) as (L & F & W').
+  apply conv_elem_ok in Hab; [|exact Hd]. destruct Hab as [Fb Hb]. rewrite L, Fb, F, W'.
+  assert (wfv PW db s b = true) as -> by (destruct Hb as [->|Hb]; auto using leafval_wf). auto.
+Qed.
+
+Lemma np_array_ok : forall dt s db y l, dt_wok dt -> wfv PW db s y = true -> np_array dt y = Ok l ->
+  forallb (fits dt) l = true /\ forallb (wfv PW db s) l = true.
+Proof.
+  intros dt s db y l Hd W H.
+  assert (Old : (sl <- np_flat y ;; mapM (conv_leaf dt) (snd sl)) = Ok l ->
+                forallb (fits dt) l = true /\ forallb (wfv PW db s) l = true).
+  { intros H'. destruct (np_flat y) as [shl|] eqn:N; cbn [bind] in H'; [|discriminate].
+    apply mapM_Forall2 in H'. destruct (conv_all _ _ _ _ _ H' (np_flat_wf _ _ _ _ N W)) as (_ & F & W'). auto. }
+  destruct y; try (apply Old; exact H).
+  cbn [np_array] in H. apply mapM_Forall2 in H. cbn [wfv] in W. apply andb_true_iff in W. destruct W as [_ W].
+  destruct (conv_elem_all _ _ _ _ _ Hd H W) as (_ & F & W'). auto.
+Qed.
+
+(* a signed array element wider than 64 bit has no storage dtype (pick_width is undefined, the model uses width 0) *)
+Definition ftype_wok (f : ftype) : bool := match f with FArr _ _ _ (EPrim (KS w)) => w <=? 64 | _ => true end.
+
+Lemma dtype_of_wok : forall fixed cap sl e, ftype_wok (FArr fixed cap sl e) = true -> dt_wok (dtype_of PW e).
+Proof.
+  intros fixed cap sl e H. destruct e as [[|w|w|w]|t]; cbn [dtype_of dt_wok]; auto.
+  - destruct (pwd_cases w) as [[? E]|[[? E]|[[? E]|[[? E]|[? E]]]]]; rewrite E; lia.
+  - cbn [ftype_wok] in H. destruct (pwd_cases w) as [[? E]|[[? E]|[[? E]|[[? E]|[? E]]]]]; rewrite E; lia.
+Qed.
+
 (* ================================================================ the setters at the generated template *)
 Definition lenG (fixed : bool) (n cap : nat) : bool := if fixed then Nat.eqb n cap else Nat.leb n cap.
 Definition chkG (q : bool) (e : etype) (l : list pyval) : res pyval :=
   if q || forallb (elem_in_dsdl_range e) l then Ok (PArr (dtype_of PW e) l) else Raise ValueError.
 Definition slowG (q fixed : bool) (cap : nat) (e : etype) (y : pyval) : res pyval :=
-  l <- np_array (dtype_of PW e) y ;;
-  if lenG fixed (length l) cap then (if float_src_ok TG q e y then chkG q e l else Raise ValueError) else Raise ValueError.
+  if int_src_ok TG e y then
+    l <- np_array (dtype_of PW e) y ;;
+    if lenG fixed (length l) cap then (if float_src_ok TG q e y then chkG q e l else Raise ValueError) else Raise ValueError
+  else Raise ValueError.
 Definition fast_bytesG (e : etype) : bool := match e with EPrim (KU w) => w <=? 8 | _ => false end.
 Definition strconv (sl : bool) (x : pyval) : pyval :=
   if sl then match x with PStr s => PBytes (utf8_encode s) | _ => x end else x.
@@ -289,7 +354,8 @@ Proof.
 Qed.
 
 (* ================================================================ 2. soundness of a setter's validation *)
-Definition sideF (strict q : bool) (f : ftype) : Prop := strict = false \/ q = false \/ ftype_std PW f = true.
+Definition sideF (strict q : bool) (f : ftype) : Prop :=
+  (strict = false \/ q = false \/ ftype_std PW f = true) /\ ftype_wok f = true.
 
 Lemma fits_elem_ok_false : forall e v, fits (dtype_of PW e) v = elem_ok PW false e v.
 Proof. intros e v. destruct e as [[|w|w|w]|t]; destruct v; reflexivity. Qed.
@@ -316,7 +382,7 @@ Proof.
   split; [|split; [|reflexivity]].
   - cbn [field_ok]. rewrite dtype_eqb_refl. unfold lenG in L. rewrite L. cbn [andb].
     apply forallb_forall. intros y Hy. rewrite forallb_forall in F. specialize (F y Hy).
-    destruct S as [S|[S|S]].
+    destruct S as [[S|[S|S]] _].
     + subst strict. rewrite <- fits_elem_ok_false. exact F.
     + subst q. cbn [orb] in C. rewrite forallb_forall in C.
       destruct strict; [apply elem_ok_true; auto | rewrite <- fits_elem_ok_false; exact F].
@@ -328,12 +394,12 @@ Lemma slowG_ok : forall strict q db fixed cap sl e y v,
   sideF strict q (FArr fixed cap sl e) -> wfv PW db strict y = true -> slowG q fixed cap e y = Ok v ->
   field_ok PW strict (FArr fixed cap sl e) v = true /\ wfv PW db strict v = true /\ is_none v = false.
 Proof.
-  intros strict q db fixed cap sl e y v S W H. unfold slowG, np_array in H.
-  destruct (np_flat y) as [shl|] eqn:N; cbn [bind] in H; [|discriminate].
-  destruct (mapM (conv_leaf (dtype_of PW e)) (snd shl)) as [l|] eqn:M; cbn [bind] in H; [|discriminate].
+  intros strict q db fixed cap sl e y v S W H. unfold slowG in H.
+  destruct (int_src_ok TG e y); [|discriminate].
+  destruct (np_array (dtype_of PW e) y) as [l|] eqn:M; cbn [bind] in H; [|discriminate].
   destruct (lenG fixed (length l) cap) eqn:L; [|discriminate].
   destruct (float_src_ok TG q e y); [|discriminate].
-  apply mapM_Forall2 in M. destruct (conv_all _ _ _ _ _ M (np_flat_wf _ _ _ _ N W)) as (_ & F & W').
+  destruct (np_array_ok _ _ _ _ _ (dtype_of_wok _ _ _ _ (proj2 S)) W M) as (F & W').
   exact (chkG_ok _ _ _ _ _ _ _ _ _ S L F W' H).
 Qed.
 
@@ -387,21 +453,33 @@ Proof.
   - eapply assign_array_ok; eauto.
 Qed.
 
-Theorem field_value_ok : forall q db f x v, wf false db x -> field_value TG PW q f x = Ok v ->
+Theorem field_value_ok : forall q db f x v, ftype_wok f = true -> wf false db x -> field_value TG PW q f x = Ok v ->
   field_ok PW false f v = true /\ wf false db v /\ is_none v = false.
-Proof. intros q db f x v W H. eapply field_value_sound; eauto. left; reflexivity. Qed.
+Proof. intros q db f x v Hw W H. eapply field_value_sound; eauto. split; [left; reflexivity|exact Hw]. Qed.
 
-Theorem field_value_ok_strict : forall q db f x v, q = false \/ ftype_std PW f = true ->
+Theorem field_value_ok_strict : forall q db f x v, q = false \/ ftype_std PW f = true -> ftype_wok f = true ->
   wf true db x -> field_value TG PW q f x = Ok v ->
   field_ok PW true f v = true /\ wf true db v /\ is_none v = false.
-Proof. intros q db f x v S W H. eapply field_value_sound; eauto. right; exact S. Qed.
+Proof. intros q db f x v S Hw W H. eapply field_value_sound; eauto. split; [right; exact S|exact Hw]. Qed.
+
+(* the premise ftype_wok is needed since the C cast was modelled: an ndarray of another dtype assigned to an array of int65
+   is cast to the width-0 dtype of the model, whose zero does not fit *)
+Theorem field_value_needs_wok : forall q,
+  field_value TG PW q (FArr false 2 false (EPrim (KS 65))) (PArr (DU 8) [PInt 5]) = Ok (PArr (DS 0) [PInt 0]) /\
+  field_ok PW false (FArr false 2 false (EPrim (KS 65))) (PArr (DS 0) [PInt 0]) = false.
+Proof.
+  intros q. split; [|vm_compute; reflexivity]. cbn [field_value]. rewrite assign_array_gen.
+  cbn [strconv assignG dtype_of]. unfold slowG, int_src_ok. rewrite orb_true_r by idtac.
+  destruct q; vm_compute; reflexivity.
+Qed.
 
 Lemma chkG_not_none : forall q e l v, chkG q e l = Ok v -> is_none v = false.
 Proof. intros q e l v. unfold chkG. destruct (q || forallb (elem_in_dsdl_range e) l); intros H; inversion H; reflexivity. Qed.
 
 Lemma slowG_not_none : forall q fixed cap e y v, slowG q fixed cap e y = Ok v -> is_none v = false.
 Proof.
-  intros q fixed cap e y v. unfold slowG. destruct (np_array (dtype_of PW e) y) as [l|]; cbn [bind]; [|discriminate].
+  intros q fixed cap e y v. unfold slowG. destruct (int_src_ok TG e y); [|discriminate].
+  destruct (np_array (dtype_of PW e) y) as [l|]; cbn [bind]; [|discriminate].
   destruct (lenG fixed (length l) cap); [|discriminate].
   destruct (float_src_ok TG q e y); [apply chkG_not_none|discriminate].
 Qed.
@@ -501,12 +579,14 @@ Proof.
 Qed.
 
 Definition sideC (strict q : bool) (c : comp) : Prop :=
-  strict = false \/ q = false \/ forallb (ftype_std PW) (c_fields c) = true.
+  (strict = false \/ q = false \/ forallb (ftype_std PW) (c_fields c) = true) /\ forallb ftype_wok (c_fields c) = true.
 
 Lemma sideC_F : forall strict q c i f, sideC strict q c -> nth_error (c_fields c) i = Some f -> sideF strict q f.
 Proof.
-  intros strict q c i f [S|[S|S]] E; [left; exact S | right; left; exact S | right; right].
-  rewrite forallb_forall in S. apply S. eapply nth_error_In; eauto.
+  intros strict q c i f [S Sw] E. split.
+  - destruct S as [S|[S|S]]; [left; exact S | right; left; exact S | right; right].
+    rewrite forallb_forall in S. apply S. eapply nth_error_In; eauto.
+  - rewrite forallb_forall in Sw. apply Sw. eapply nth_error_In; eauto.
 Qed.
 
 (* a successful set, with what is needed to re-establish the invariants *)
@@ -523,12 +603,12 @@ Proof.
 Qed.
 
 Theorem set_slot_ok : forall q db c slots i x s' r (strict : bool),
-  (strict = false \/ q = false \/ forallb (ftype_std PW) (c_fields c) = true) ->
+  (strict = false \/ q = false \/ forallb (ftype_std PW) (c_fields c) = true) -> forallb ftype_wok (c_fields c) = true ->
   obj_ok PW strict c slots = true -> forallb (wfv PW db strict) slots = true -> wfv PW db strict x = true ->
   set_slot TG PW q c slots i x = (s', r) ->
   obj_ok PW strict c s' = true /\ forallb (wfv PW db strict) s' = true.
 Proof.
-  intros q db c slots i x s' r strict S O Ws Wx H.
+  intros q db c slots i x s' r strict S0 Sw O Ws Wx H. assert (S : sideC strict q c) by (split; assumption).
   destruct r as [e|].
   - apply set_slot_cases in H. destruct H as [[-> _]|[H _]]; [auto|discriminate].
   - destruct (set_slot_success strict q db c slots i x s' S Wx H) as (f & v & Ef & Fo & Wv & Nv & ->).
@@ -563,21 +643,22 @@ Qed.
    construct_needs_union_option / construct_needs_signed_width at the end of this section):
    a union has at least one option, and a signed array element is not wider than 64 bit
    (pick_width is undefined above 64; the model then uses dtype width 0, and the zero of np.zeros does not fit int0). *)
-Definition ftype_wok (f : ftype) : bool := match f with FArr _ _ _ (EPrim (KS w)) => w <=? 64 | _ => true end.
 Definition comp_wok (c : comp) : bool :=
   (negb (c_union c) || negb (Nat.eqb (length (c_fields c)) 0)) && forallb ftype_wok (c_fields c).
 Definition db_wok (db : tdb) : bool := forallb comp_wok db.
 
 Definition side (strict q : bool) (db : tdb) : Prop := strict = false \/ q = false \/ db_std_elems PW db = true.
 
-Lemma side_C : forall strict q db tid c, side strict q db -> nth_error db tid = Some c -> sideC strict q c.
-Proof.
-  intros strict q db tid c [S|[S|S]] E; [left; exact S | right; left; exact S | right; right].
-  unfold db_std_elems in S. rewrite forallb_forall in S. apply S. eapply nth_error_In; eauto.
-Qed.
-
 Lemma db_wok_C : forall db tid c, db_wok db = true -> nth_error db tid = Some c -> comp_wok c = true.
 Proof. intros db tid c H E. unfold db_wok in H. rewrite forallb_forall in H. apply H. eapply nth_error_In; eauto. Qed.
+
+Lemma side_C : forall strict q db tid c, side strict q db -> db_wok db = true -> nth_error db tid = Some c -> sideC strict q c.
+Proof.
+  intros strict q db tid c S Wdb E. split.
+  - destruct S as [S|[S|S]]; [left; exact S | right; left; exact S | right; right].
+    unfold db_std_elems in S. rewrite forallb_forall in S. apply S. eapply nth_error_In; eauto.
+  - pose proof (db_wok_C _ _ _ Wdb E) as WC. unfold comp_wok in WC. apply andb_true_iff in WC. tauto.
+Qed.
 
 Lemma forallb_repeat {A} (p : A -> bool) : forall a n, p a = true -> forallb p (repeat a n) = true.
 Proof. induction n; intros; cbn [repeat forallb]; auto. rewrite H; auto. Qed.
@@ -702,7 +783,7 @@ Lemma construct_with_ok : forall strict q db, side strict q db -> db_wok db = tr
 Proof.
   intros strict q db S Wdb defs tid kw o Wd Wk H. unfold construct_with in H.
   destruct (nth_error db tid) as [c|] eqn:Ec; [|discriminate].
-  pose proof (side_C _ _ _ _ _ S Ec) as SC. pose proof (db_wok_C _ _ _ Wdb Ec) as WC.
+  pose proof (side_C _ _ _ _ _ S Wdb Ec) as SC. pose proof (db_wok_C _ _ _ Wdb Ec) as WC.
   unfold comp_wok in WC. apply andb_true_iff in WC. destruct WC as [WU WF].
   assert (Hblank : forallb (wfv PW db strict) (map (fun _ : ftype => PNone) (c_fields c)) = true)
     by (apply forallb_map_const; reflexivity).
@@ -845,6 +926,23 @@ Proof.
   change (t_float_check_below TG) with 64. destruct (w <? 64) eqn:E; [lia|reflexivity].
 Qed.
 
+(* with the pre-check (whatever the generated flag is): Python ints within the field range pass it *)
+Lemma int_src_ok_ints : forall w zs, Forall (fun z => urange w z = true) zs ->
+  int_src_ok TG (EPrim (KU w)) (PList (map PInt zs)) = true.
+Proof.
+  intros w zs H. unfold int_src_ok. destruct (t_arr_precheck TG); [|reflexivity]. cbn [negb orb].
+  destruct (np_flat_ints zs) as [sh ->]. cbn [snd]. apply forallb_forall. intros y Hy.
+  apply in_map_iff in Hy. destruct Hy as (z & <- & Hin). cbn [int_leaf_ok int_in_range]. rewrite Forall_forall in H. auto.
+Qed.
+
+Lemma int_src_ok_other : forall e y, match e with EPrim (KU _) | EPrim (KS _) => False | _ => True end ->
+  int_src_ok TG e y = true.
+Proof.
+  intros e y He. unfold int_src_ok. destruct (t_arr_precheck TG); [|reflexivity]. cbn [negb orb].
+  destruct (np_flat y) as [sl|]; [|reflexivity]. apply forallb_forall. intros x _.
+  destruct e as [[|w|w|w]|t]; try contradiction; reflexivity.
+Qed.
+
 Theorem array_length_exact : forall q fixed cap sl w zs, 1 <= w <= 64 -> Forall (fun z => urange w z = true) zs ->
   assign_array TG PW q fixed cap sl (EPrim (KU w)) (PList (map PInt zs)) =
   if (if fixed then Nat.eqb (length zs) cap else Nat.leb (length zs) cap)
@@ -852,7 +950,7 @@ Theorem array_length_exact : forall q fixed cap sl w zs, 1 <= w <= 64 -> Forall 
 Proof.
   intros q fixed cap sl w zs Hw Hz. rewrite assign_array_gen.
   replace (strconv sl (PList (map PInt zs))) with (PList (map PInt zs)) by (destruct sl; reflexivity).
-  cbn [assignG]. unfold slowG, np_array. destruct (np_flat_ints zs) as [sh ->]. cbn [bind snd dtype_of].
+  cbn [assignG]. unfold slowG. rewrite (int_src_ok_ints w zs Hz). unfold np_array. destruct (np_flat_ints zs) as [sh ->]. cbn [bind snd dtype_of].
   rewrite mapM_conv_ints by (eapply Forall_impl; [|exact Hz]; intros; apply urange_pwd; auto).
   cbn [bind]. rewrite map_length. unfold lenG.
   destruct (if fixed then Nat.eqb (length zs) cap else Nat.leb (length zs) cap); [|reflexivity].
@@ -868,7 +966,7 @@ Qed.
 Theorem array_elem_range_refuted : exists db tid ops, wfv PW db true (run TG PW true db tid ops) = false.
 Proof.
   exists [{| c_union := false; c_fields := [FArr false 3 false (EPrim (KU 4))] |}], 0%nat,
-         [OSet 0 (XVal (PList [PInt 200; PInt 3]))].
+         [OSet 0 (XNd (DU 8) [XVal (PInt 200); XVal (PInt 3)])].   (* a uint8 ndarray: bound without conversion *)
   vm_compute. reflexivity.
 Qed.
 
@@ -1108,13 +1206,13 @@ Proof.
   assert (Hi : (i < length slots)%nat) by (rewrite L; apply nth_error_Some; congruence).
   assert (Generic : forall x, wfv PW db strict x = true -> set_slot TG PW q c slots i x = (s', r) ->
                               obj_ok PW strict c s' = true /\ forallb (wfv PW db strict) s' = true).
-  { intros x Wx SS. exact (set_slot_ok q db c slots i x s' r strict SC O Ws Wx SS). }
+  { intros x Wx SS. exact (set_slot_ok q db c slots i x s' r strict (proj1 SC) (proj2 SC) O Ws Wx SS). }
   destruct f as [[k|t]|fixed cap sl [k|t]]; cbn [ufb_step] in H; try (eapply Generic; eauto; fail).
   - (* a composite-typed field: the nested instance is updated in place *)
     destruct (is_none (nth i slots PNone)) eqn:N.
     + destruct (set_slot TG PW q c slots i (default_obj TG PW q db t)) as [s1 r1] eqn:SS.
       cbv beta iota zeta in H.
-      destruct (set_slot_ok q db c slots i _ s1 r1 strict SC O Ws (Wd t) SS) as [O1 W1].
+      destruct (set_slot_ok q db c slots i _ s1 r1 strict (proj1 SC) (proj2 SC) O Ws (Wd t) SS) as [O1 W1].
       destruct r1 as [e|]; [inversion H; subst; auto|].
       pose proof SS as SS'. apply set_slot_cases in SS'.
       destruct SS' as [[_ [e He]]|[_ (f' & v & Ef' & V & E1)]]; [discriminate|].
@@ -1224,7 +1322,7 @@ Proof.
     destruct (ufb_kv c src) as [kv|e] eqn:Ek; [|apply Fin; auto].
     pose proof (ufb_kv_wf _ _ _ _ _ Wsrc Ek) as Wkv.
     destruct (ufb_loop_ok strict q db (ufb TG PW q db fuel) c IH (default_obj_ok q db strict Sd Wdb)
-                (side_C _ _ _ _ _ Sd Ec) (c_fields c) 0 kv slots (fun j => eq_refl) Wkv O Ws) as [O' W'].
+                (side_C _ _ _ _ _ Sd Wdb Ec) (c_fields c) 0 kv slots (fun j => eq_refl) Wkv O Ws) as [O' W'].
     destruct (ufb_loop TG PW q db (ufb TG PW q db fuel) c (c_fields c) 0 kv slots) as [s' [e|]]; cbn [fst] in O', W'.
     + apply Fin; auto.
     + destruct (existsb _ kv); apply Fin; auto.
@@ -1294,7 +1392,7 @@ Proof.
     destruct (nth_error db tid) as [c|] eqn:Ec; [|cbn [fst]; auto].
     destruct (set_slot TG PW q c slots i x) as [s' r] eqn:SS. cbn [fst].
     cbn [tid_ok] in To. subst t. cbn [wfv] in Wo. rewrite Ec in Wo. apply andb_true_iff in Wo. destruct Wo as [O Ws].
-    destruct (set_slot_ok q db c slots i x s' r strict (side_C _ _ _ _ _ Sd Ec) O Ws Wx SS) as [O' W'].
+    destruct (side_C _ _ _ _ _ Sd Wdb Ec) as [Sc Sw]. destruct (set_slot_ok q db c slots i x s' r strict Sc Sw O Ws Wx SS) as [O' W'].
     split; [cbn [wfv]; rewrite Ec, O', W'; reflexivity | reflexivity].
   - destruct (eval TG PW q db e) as [x|] eqn:Ee; [|cbn [fst]; auto].
     pose proof (eval_ok q db strict Sd Wdb _ _ Ee) as Wx.
